@@ -346,12 +346,17 @@ def all_zero(sx, sc):
 def judge_pn53x(sx, sc, kind, out, data, tag):
     rf = [(i, c, v) for i, c, v in sc.status if c in PN_RF]
     if kind == 'ltt3':
-        irq = [v for i, c, v in sc.status if c == 'irq']
+        irq = [(i, v) for i, c, v in sc.status if c == 'irq']
         if irq:
-            commirq, divirq = irq[-1]
+            at, (commirq, divirq) = irq[-1]
+            # the register values count only if the ReadRegister command that
+            # delivered them reported success (PN533 status byte)
+            read_ok = sx.all([good(c, v) for i, c, v in sc.status
+                              if i == at and c != 'irq'])
             if out != "BrokenLinkError":
                 # external field switched off (CIU_DivIRq.RfOffIRq)
-                sx.check((divirq & 1) == 0, "field-off-not-BrokenLinkError:" + tag)
+                sx.check(sx.neg(sx.all([read_ok, (divirq & 1) != 0])),
+                         "field-off-not-BrokenLinkError:" + tag)
             if out == "data":
                 sx.check((commirq & 0x20) != 0, "data-without-rx-irq:" + tag)
         if out == "None":
